@@ -65,6 +65,11 @@ func shapeGroups(tier string) []shapeGroup {
 	if tier == "thorough" {
 		all = append(all, tbin.T3Small()...)
 	}
+	// maps keyed by containers and structs (Go form: pointer keys)
+	b := tbin.Sc(tbin.BOOL)
+	all = append(all, tbin.MapS(tbin.ListS(tbin.Sc(tbin.I32)), tbin.Sc(tbin.I32)), tbin.MapS(tbin.SetS(tbin.Sc(tbin.STRING)), tbin.Sc(tbin.BYTE)),
+		tbin.MapS(tbin.MapS(tbin.Sc(tbin.STRING), b), b), tbin.MapS(tbin.MapS(tbin.Sc(tbin.I32), b), b), tbin.MapS(tbin.StructS(tbin.SF(1, tbin.Sc(tbin.I32))), tbin.Sc(tbin.I32)),
+		tbin.MapS(tbin.Sc(tbin.DOUBLE), tbin.Sc(tbin.STRING)))
 	var gs []shapeGroup
 	chunk := 40
 	for _, kind := range []string{"any", "desc", "skip"} {
